@@ -6,7 +6,7 @@
    about them (idempotent on their own output, output valid UTF-8, normalised
    domain and IP literals without '/' and '@', IP literals of 1..1023 bytes).
    Theorems without X hold for all byte strings with no assumption. *)
-From XV Require Import lib.Bytes gen.Jid C11.Model C11.Proofs.
+From XV Require Import lib.Bytes gen.Jid C11.Model C11.Proofs C11.ProofsHeap.
 
 (* ---- splitting: first '/', then first '@' (every byte string, both modes) ---- *)
 
@@ -159,3 +159,58 @@ Theorem C11_xml_element_roundtrip_refuted :
   exists X, ext_ok X /\ exists j j0, returned X j /\ unmarshal_xml X j0 (marshal_xml j) <> (j, ENone).
 Proof. exact xml_element_zero_refuted. Qed.
 Print Assumptions C11_xml_element_roundtrip_refuted.
+
+(* ---- values share backing arrays: histories of calls ----
+
+   The theorems above are about values.  Go JIDs hold slices: Bare, Domain,
+   Copy, WithResource("") and assignment share one backing array between
+   several values, and append writes in place when the capacity suffices.  The
+   heap layer of Model.v runs every function as a transition on a heap of
+   arrays (make, copy, append, reslice as in the source), for EVERY capacity
+   policy [slack].  [h_run X slack st0 prog] runs a program: every call puts
+   its result in a new register; [views st] are the addresses all registers
+   denote now. *)
+
+(* one call, from any valid state: every array that existed is unchanged, the
+   result is valid, and it denotes what the value-level function computes *)
+Theorem C11_call_writes_only_fresh_arrays : forall X slack st o, st_ok st ->
+  op_spec (st_heap st) (h_call X slack st o) (v_call X (views st) o).
+Proof. exact h_call_spec. Qed.
+Print Assumptions C11_call_writes_only_fresh_arrays.
+
+(* every history computes, register by register, the value-level program: the
+   value-level theorems apply to every value of every history *)
+Theorem C11_history_refines_values : forall X slack prog,
+  let st := h_run X slack st0 prog in
+  (views st, st_errs st) = v_run X ([], []) prog.
+Proof. exact history_refines. Qed.
+Print Assumptions C11_history_refines_values.
+
+(* no later call, on any value, changes a value returned earlier *)
+Theorem C11_results_independent_of_later_calls : forall X slack pre post,
+  let st := h_run X slack st0 pre in
+  let st' := h_run X slack st post in
+  pres (st_heap st) (st_heap st') /\
+  forall i, i < length (st_regs st) ->
+    hreg st' i = hreg st i /\ view (st_heap st') (hreg st' i) = view (st_heap st) (hreg st i).
+Proof. exact history_independent. Qed.
+Print Assumptions C11_results_independent_of_later_calls.
+
+(* canonical for ever: a register produced without error by the validating API
+   (from such registers) denotes the zero value or a canonical address at the
+   end of every history, whatever was called after it *)
+Theorem C11_history_values_canonical : forall X, ext_ok X -> forall slack prog,
+  let st := h_run X slack st0 prog in
+  forall k, nth k (clean_from [] prog (st_errs st)) true = true ->
+    view (st_heap st) (hreg st k) = zero \/ canon X (view (st_heap st) (hreg st k)).
+Proof. exact history_canonical. Qed.
+Print Assumptions C11_history_values_canonical.
+
+(* the fact of the source the heap layer rests on, re-read on every run: every
+   slice the package writes through is made in the same function, and the
+   functions that write are the ones modelled with writes *)
+Theorem C11_write_sites_are_fresh :
+  forallb (fun s => match snd s with WFresh => true | WShared => false end) jid_write_sites = true /\
+  jid_writers = [str "New"; str "WithLocal"; str "WithDomain"; str "WithResource"; str "NewUnsafe"].
+Proof. exact (conj tbl_write_targets_fresh tbl_writers_are_modelled). Qed.
+Print Assumptions C11_write_sites_are_fresh.
